@@ -255,7 +255,7 @@ def check_rename(ctx, db):
               'rename_cell: condition `%s` (expected type == Name && strcmp(ref->name, old_name) == 0) %s' % (cond, why))
     # the cell's own name is rewritten after the loops; the old name compared in the loops aliases cell->name (first parameter)
     p0 = 'v%d:%s' % (f.params[0]['d'], f.params[0]['n'])
-    tail = [s for s in f.body.c if s is not None and (inner is None or s.id > inner.id)]
+    tail = [s for s in f.body.c if s is not None and (inner is None or s.pos > inner.pos)]
     re_ = next((x for s in tail for x in s.walk() if is_assign(x) and lvalue_key(_strip_casts(x.child('lhs'))) == p0 + '->name'), None)
     mc = next((x for s in tail for x in s.walk() if x.k == 'CallExpr' and x.callee == 'memcpy'), None)
     ok = re_ is not None and mc is not None and lvalue_key(_strip_casts(mc.args[0])) == p0 + '->name' and origin_params(f, mc.args[1]) == {len(f.params) - 1}
